@@ -26,13 +26,18 @@ operations, the session's inner map has object identity.
      and reset the TCP connection before / while thruserv writes its first
      frames; a later healthy client must see only live peers in its
      peer_list, and the session must end when the host leaves.
+  6. Real server (driver stuck-peer): a peer stays connected but stops
+     reading until its server-side writer blocks in the socket write; it then
+     reconnects under its own peer id, another peer leaves and rejoins, the
+     session expires - every step (and an uninvolved second session, /health,
+     session creation) must complete within 6 s.
 """
 import os
 import vlib
 
 PROP = "C11"
-INVS = ['NoPanic', 'Routable', 'LeftNotListed', 'IndexSound', 'LinkedOpen', 'NoLeak', 'Isolation', 'NoDup']
-CURRENT = dict(SendOnClosedPanics=False, GCUsesCapturedMap=False)   # after fix 1d868ae and c94e16c
+INVS = ['NoPanic', 'Routable', 'LeftNotListed', 'IndexSound', 'LinkedOpen', 'NoLeak', 'Isolation', 'NoDup', 'NothingWaits']
+CURRENT = dict(SendOnClosedPanics=False, GCUsesCapturedMap=False, AddWaitsForWriter=False, CloseTakesWriteMu=False, StuckConns='{}')   # after fix 1d868ae and c94e16c
 CFG = dict(A=dict(Conns='<-ConnsA', PeerOf='<-PeerOfA', SessOf='<-SessOfA', Sessions='<-SessionsA'),
            B=dict(Conns='<-ConnsB', PeerOf='<-PeerOfB', SessOf='<-SessOfB', Sessions='<-SessionsB'))
 
@@ -54,7 +59,9 @@ def run(tier, seed, prop=PROP):
     # 2. non-vacuity
     refuted = {}
     for nm, sw, inv in [("SendOnClosedPanics=TRUE", dict(CURRENT, SendOnClosedPanics=True), 'NoPanic'),
-                        ("GCUsesCapturedMap=TRUE", dict(CURRENT, GCUsesCapturedMap=True), 'Routable')]:
+                        ("GCUsesCapturedMap=TRUE", dict(CURRENT, GCUsesCapturedMap=True), 'Routable'),
+                        ("AddWaitsForWriter=TRUE", dict(CURRENT, AddWaitsForWriter=True, StuckConns='{"c1"}'), 'NothingWaits'),
+                        ("CloseTakesWriteMu=TRUE", dict(CURRENT, CloseTakesWriteMu=True, StuckConns='{"c1"}'), 'NothingWaits')]:
         c = dict(CFG["A"], NB=1, NS=1, MaxObj=3, Track=True, **sw)
         rn = vlib.run_tlc('Hub', dict(constants=c, invariants=[inv], view='View'), workers=8, want_edges=False, expect_violation=True)
         refuted[nm] = rn['violated']
@@ -64,15 +71,19 @@ def run(tier, seed, prop=PROP):
     plans = [("A", dict(NB=1, NS=0, MaxObj=2), 1500), ("B", dict(NB=1, NS=1, MaxObj=2), 700)] if tier == "quick" else \
             [("A", dict(NB=1, NS=1, MaxObj=3), 12000), ("B", dict(NB=1, NS=1, MaxObj=3), 6000)]
     shards = 6 if tier == "quick" else 14
-    for name, dims, sample in plans:
-        c = dict(CFG[name], Track=True, **dims, **CURRENT)
-        edges = os.path.join(work, "hub%s.ndjson" % name)
+    # third plan: configuration A again, c1's peer has stopped reading (its writer blocks at the first message)
+    plans.append(("A", dict(NB=1, NS=0 if tier == "quick" else 1, MaxObj=2), 60 if tier == "quick" else 1500, "c1"))
+    for plan in plans:
+        name, dims, sample = plan[:3]
+        stuck = plan[3] if len(plan) > 3 else ""
+        c = dict(CFG[name], Track=True, **dims, **dict(CURRENT, StuckConns='{"%s"}' % stuck if stuck else '{}'))
+        edges = os.path.join(work, "hub%s%s.ndjson" % (name, stuck))
         r = vlib.run_tlc('Hub', dict(constants=c, invariants=INVS, view='View', action_constraint='Emit'),
                          workers=vlib.NCPU, edges_path=edges, timeout=2400)
         if r['violated']:
             raise vlib.HarnessTrouble("Hub.tla violates its invariants:\n" + r['violation_text'][:2500])
-        tlc_runs.append(dict(cfg=name, emitted=True, **dims, generated=r['generated'], distinct=r['distinct'], wall_s=r['wall_s']))
-        res = vlib.run_vh_sharded(['hub', '-edges', edges, '-cfg', name, '-ns', str(dims['NS']), '-seed', str(seed),
+        tlc_runs.append(dict(cfg=name, emitted=True, stuck=stuck, **dims, generated=r['generated'], distinct=r['distinct'], wall_s=r['wall_s']))
+        res = vlib.run_vh_sharded(['hub', '-edges', edges, '-cfg', name, '-ns', str(dims['NS']), '-seed', str(seed), '-stuck', stuck,
                                    '-sample', str(sample), '-budget', '90s' if tier == 'quick' else '12m'], shards, timeout=2400)
         for viol in res['violations']:
             v.violation(viol['sig'], viol.get('replay'))
@@ -93,6 +104,11 @@ def run(tier, seed, prop=PROP):
     gj = vlib.run_vh_sharded(['ghost-join', '-thruserv', srvb, '-rounds', '40' if tier == "quick" else '200'], 3, timeout=900)
     for viol in gj['violations']:
         v.violation(viol['sig'], viol.get('replay'))
+    # a peer that stays connected but has stopped reading (its server-side writer blocks in the socket write):
+    # reconnect under the same peer id, another peer leaving and rejoining, session expiry - nothing may wait for it
+    sp = vlib.run_vh_sharded(['stuck-peer', '-thruserv', srvb, '-rounds', '1' if tier == "quick" else '4'], 3, timeout=900)
+    for viol in sp['violations']:
+        v.violation(viol['sig'], viol.get('replay'))
     if tot['drift']:
         print("DRIFT %s: %d behaviours where the real Hub differs from Hub.tla (not a verdict)" % (prop, tot['drift']))
     v.coverage = dict(
@@ -102,6 +118,7 @@ def run(tier, seed, prop=PROP):
         replay=dict(behaviours=tot['behaviours'], steps=tot['steps'], drift=tot['drift'], distinct_behaviours=tot['distinct'],
                     transitions_covered_on_real_hub=tot['covered'], actions_exercised=acts,
                     abrupt_joins_against_real_server=dict(sessions=gj['behaviours'], joins=gj['steps'], ghosts_listed=gj['extra'].get('ghosts_listed')),
+                    peer_that_stopped_reading_against_real_server=dict(scenarios=sp['behaviours'], steps=sp['steps'], outcomes=sp['extra'].get('outcomes'), trouble=sp['extra'].get('trouble')),
                     free_running_stress=dict(rounds=st['behaviours'], operations=st['extra'].get('operations'))),
     )
     v.assumptions = [
